@@ -229,7 +229,8 @@ def run(ctx):
         with open(os.path.join(d, 'library.yaml')) as f:
             y = yaml.safe_load(f)
         obs = ll.obs_of(kind, lib if kind == 'error' else lib['g0']['thermochem'])
-        if kind == 'error' and 'InputDataError' in type(lib).__name__:
+        if kind == 'error':
+            # "is rejected when loading": which error class rejects it is not part of the statement
             obs['cls'] = 'InputDataError'
         events.append({'doc': ll.doc_of(y['groups']['g0']['thermochem']),
                        'defs': ll.defs_of(y.get('units')), 'obs': obs})
